@@ -19,7 +19,11 @@ Proof.
       apply bind_ok in E. destruct E as [x0 [s1 [E1 E]]]. apply need_node_ok in E1. destruct E1 as [_ ->].
       apply bind_ok in E. destruct E as [x1 [s1 [E1 E]]]. apply need_node_ok in E1. destruct E1 as [_ ->].
       apply bind_ok in E. destruct E as [e [s1 [E1 E]]]. apply get_ok in E1. destruct E1 as [-> ->].
-      simpl in E. destruct (unpeer_ends g a b) as [[|xy [|xy' l]]|]; try discriminate.
+      simpl in E. destruct (unpeer_ends g a b) as [[|xy [|xy' l]]|]; try discriminate;
+        [| apply bind_ok in E; destruct E as [b0 [s1 [_ E]]]; destruct b0; discriminate].
+      unfold api_unpeer_checked in E.
+      apply bind_ok in E. destruct E as [okb [s1 [E1 E]]]. apply get_ok in E1. destruct E1 as [-> ->].
+      apply bind_ok in E. destruct E as [[] [s1 [E1 E]]]. apply guard_ok in E1. destruct E1 as [_ ->].
       unfold api_unpeer_with in E.
       apply bind_ok in E. destruct E as [[] [s1 [E1 E]]].
       apply bind_ok in E. destruct E as [[] [s2 [E2 E]]]. apply ret_ok in E. destruct E as [_ E]. rewrite <- E in *.
@@ -131,8 +135,12 @@ Proof.
   apply bind_ok in E. destruct E as [x0 [s0 [E1 E]]]. apply need_node_ok in E1. destruct E1 as [_ ->].
   apply bind_ok in E. destruct E as [x1 [s0 [E1 E]]]. apply need_node_ok in E1. destruct E1 as [_ ->].
   apply bind_ok in E. destruct E as [e [s0 [E1 E]]]. apply get_ok in E1. destruct E1 as [-> ->].
-  simpl in E. destruct (unpeer_ends g a b) as [[|[x y] [|xy' l]]|] eqn:Hu; try discriminate.
+  simpl in E. destruct (unpeer_ends g a b) as [[|[x y] [|xy' l]]|] eqn:Hu; try discriminate;
+    [| apply bind_ok in E; destruct E as [b0 [s1 [_ E]]]; destruct b0; discriminate].
   destruct (Hp (x, y) eq_refl) as [Hx0 [Hy0 [Hxc [Hyc [Hya Hxb]]]]]. simpl in *.
+  unfold api_unpeer_checked in E.
+  apply bind_ok in E. destruct E as [okb [s1 [E1 E]]]. apply get_ok in E1. destruct E1 as [-> ->].
+  apply bind_ok in E. destruct E as [[] [s1 [E1 E]]]. apply guard_ok in E1. destruct E1 as [_ ->].
   unfold api_unpeer_with in E. simpl in E.
   apply bind_ok in E. destruct E as [[] [s1 [E1 E]]].
   apply bind_ok in E. destruct E as [[] [s2 [E2 E]]]. apply ret_ok in E. destruct E as [-> E]. subst s2.
